@@ -54,9 +54,9 @@ def sym_str(name):
 def gen_arg(g, simple=False):
     """-> {'syn': syntax, 'val': [argv elements], 'kind': ...}"""
     kinds = ['word', 'word', 'soft', 'hard', 'symref', 'symref', 'softsym', 'softref', 'mixed', 'empty', 'existing',
-             'optionlike', 'reserved']
+             'optionlike', 'reserved', 'backslash']
     if simple == 'actor':
-        kinds = ['word', 'word', 'soft', 'symref', 'softsym', 'softref', 'mixed', 'empty', 'optionlike']
+        kinds = ['word', 'word', 'soft', 'symref', 'softsym', 'softref', 'mixed', 'empty', 'optionlike', 'backslash']
     elif simple:
         kinds = ['word', 'optionlike']
     k = g.choice(kinds)
@@ -85,6 +85,11 @@ def gen_arg(g, simple=False):
     if k == 'softsym':
         n = g.choice(sorted(SYMS))
         return {'syn': '"pre @[%s]@ post"' % n, 'val': ['pre %s post' % sym_str(n)], 'kind': k}
+    if k == 'backslash':
+        # backslashes are ordinary characters inside hard quotes - also \\[ and \\\\, which [act] un-escapes only when they are
+        # the first non-space characters of a line
+        w = g.choice(['x\\[y]', 'C:\\\\dir', 'a\\b', '\\[', 'p\\\\[q'])
+        return {'syn': "'%s'" % w, 'val': [w], 'kind': k}
     if k == 'softref':
         # a soft-quoted token that is nothing but one reference is a string, whatever the type of the symbol: a list gives
         # ONE argument (its elements separated by single spaces; the empty list gives one empty argument)
